@@ -28,6 +28,7 @@ def parseRej (s : String) : Option Rej :=
 
 def parseOp : List String → Option Op
   | ["new"] => some .new
+  | ["newv"] => some .new      -- a Promise<void>: the program settles it with 0, its continuations take no argument (logged as 0)
   | ["res", v] => v.toInt?.map Op.newResolved
   | ["rej", e] => e.toNat?.map Op.newRejected
   | ["then", p, cb, ret, rej] => do pure (.then_ (← p.toNat?) (← cb.toNat?) (← parseRet ret) (← parseRej rej))
